@@ -732,10 +732,12 @@ pub struct Worker {
 }
 
 pub fn new_worker() -> Worker {
-    let mut it = Interp::new().expect("interpreter construction");
+    let mut it = Interp::must_new();
     for f in parse_all(PRELUDE) {
         let o = it.eval(&f.to_string());
-        assert!(matches!(o, Outcome::Val(_)), "prelude failed: {}", o);
+        if !matches!(o, Outcome::Val(_)) {
+            crate::drive::impl_fail(&format!("the prelude definition {} => {}", f, o));
+        }
     }
     // prelude definitions live in the base frame
     Worker { it, prelude: parse_all(PRELUDE) }
